@@ -53,3 +53,21 @@ Theorem C13_key_management_never_panics : forall who pol key h,
   (forall hd flag pl, genDataMsg (c_keys c) hd flag pl <> Panic).
 Proof. exact key_management_never_panics. Qed.
 Print Assumptions C13_key_management_never_panics.
+
+(* ---- the disconnect record ends the TLV loop (fix f9b2649) ----
+   Whatever follows a disconnect record in the TLV list of a data message: nothing of it is looked at; the receiver is
+   finished and holds no session keys, no SMP state, no exchange context and no version.  (Before the repair the loop
+   went on and an SMP record there made the handler dereference the forgotten version.) *)
+From OTR Require Import Gen.Consts Proto.SmpTypes Proto.Smp Proto.DisconnectEnds.
+Theorem C13_records_behind_disconnect_are_inert : forall rnd r x acc,
+  processTLVs rnd (TDisconnected :: r) x acc = processTLVs rnd [TDisconnected] x acc.
+Proof. exact records_behind_disconnect_ignored. Qed.
+Print Assumptions C13_records_behind_disconnect_are_inert.
+
+Theorem C13_disconnect_ends_the_session_whatever_follows : forall rnd r x acc c ev,
+  let '(res, c', ev') := processTLVs rnd (TDisconnected :: r) x acc c ev in
+  res = inl acc /\ c_msgState c' = c_finished /\ c_keys c' = keyctx_empty /\ c_smp c' = smp_wiped /\ c_ake c' = None /\
+  c_version c' = 0 /\
+  ev' = ev ++ (if N.eqb (c_msgState c) c_encrypted then [evSec c_GoneInsecure] else []).
+Proof. exact disconnect_ends_everything. Qed.
+Print Assumptions C13_disconnect_ends_the_session_whatever_follows.
